@@ -46,7 +46,7 @@ def known(ctx):
 def program_of(evs):
     if not evs:
         return None
-    head = {k: v for k, v in evs[0].items() if k not in ("op", "res", "obs")}
+    head = {k: v for k, v in evs[0].items() if k not in ("op", "res", "obs")}      # kind, max, pre, foreign, load / limit, maxsize
     head["ops"] = [{k: v for k, v in e.items() if k not in ("res", "obs", "seq", "created", "wrote")} for e in evs[1:]
                    if e.get("op") != "hang"]
     return head
@@ -248,6 +248,7 @@ def run(ctx):
             ("empty", dict(D=4, Max0=2, PreName='"empty"', Sizes=S(100, CAP - 100, CAP + 1), Idx=S(0), ReMax=S(2), LoadOp="TRUE")),
             ("clean2", dict(D=3, Max0=3, PreName='"clean2"', Sizes=S(0, 100, CAP), Idx=S(0, 1, 2), ReMax=S(1, 3))),
             ("gap", dict(D=3, Max0=4, PreName='"gap"', Sizes=S(100, CAP), Idx=S(0, 1, 2), ReMax=S(2, 4))),
+            ("foreign", dict(D=2, Max0=3, PreName='"foreign"', Sizes=S(100), Idx=S(0, 2), ReMax=S(3))),
             ("gap0", dict(D=3, Max0=2, PreName='"gap0"', Sizes=S(100, CAP), Idx=S(0, 1), ReMax=S(2))),
             ("short", dict(D=3, Max0=2, PreName='"short"', Sizes=S(10, 500, CAP + 1), WSizes=S(10, 500), Idx=S(0), ReMax=S(2))),
             ("short0", dict(D=3, Max0=3, PreName='"short0"', Sizes=S(1, 479), WSizes=S(1, 479), Idx=S(0, 1), ReMax=S(3))),
@@ -268,6 +269,7 @@ def run(ctx):
                             LoadOp="TRUE")),
             ("clean2", dict(D=4, Max0=3, PreName='"clean2"', Sizes=S(0, 100, CAP), Idx=S(0, 1, 2), ReMax=S(1, 3))),
             ("gap", dict(D=4, Max0=4, PreName='"gap"', Sizes=S(100, CAP), Idx=S(0, 1, 2), ReMax=S(2, 4), LoadOp="TRUE")),
+            ("foreign", dict(D=3, Max0=3, PreName='"foreign"', Sizes=S(100), Idx=S(0, 2), ReMax=S(3))),
             ("gap0", dict(D=4, Max0=2, PreName='"gap0"', Sizes=S(100, CAP), Idx=S(0, 1), ReMax=S(2))),
             ("short", dict(D=5, Max0=2, PreName='"short"', Sizes=S(10, 500, CAP + 1), WSizes=S(10, 500), Idx=S(0), ReMax=S(2))),
             ("short0", dict(D=4, Max0=3, PreName='"short0"', Sizes=S(1, 479), WSizes=S(1, 479), Idx=S(0, 1), ReMax=S(3))),
